@@ -4,6 +4,7 @@ import (
 	"fmt"
 	"math"
 	"math/rand/v2"
+	"strings"
 	"time"
 
 	"verif/harness/mon"
@@ -39,6 +40,14 @@ func renderInstant(r *rand.Rand, t time.Time) string {
 		layouts = append(layouts, "2006-01-02T15:04:05.0Z07:00")
 	}
 	s := t.In(z).Format(layouts[r.IntN(len(layouts))])
+	if i := strings.Index(s, "."); i > 0 && r.IntN(6) == 0 {
+		// RFC 3339 sets no upper limit on fractional digits: the same instant with trailing zeros beyond nanoseconds
+		j := i + 1
+		for j < len(s) && s[j] >= '0' && s[j] <= '9' {
+			j++
+		}
+		s = s[:j] + strings.Repeat("0", 1+r.IntN(24)) + s[j:]
+	}
 	if z != time.UTC && z.String() == "" && t.In(z).Format("Z07:00") == "Z" {
 		// FixedZone(0) renders as Z as well; force the numeric form half of the time
 		if r.IntN(2) == 0 {
@@ -173,8 +182,12 @@ func runC05(c *mon.Ctx) {
 				nooa = c05Bound(r, now, time.Hour, "ok")
 			}
 		}
+		withoutAttrs := na > 1 && r.IntN(4) == 0
 		for i, a := range rec.Assertions {
 			a.ID = sim.S(fmt.Sprintf("_a%d", i))
+			if withoutAttrs && i == 0 {
+				a.HasAttrStmt, a.Attrs = false, nil // the first assertion is an authentication-only one; a later one carries the attributes
+			}
 			a.Confs[0].NotOnOrAfter = sc[i].text
 			if r.IntN(5) == 0 {
 				// a lower bound on the confirmation data (which the warning is not about), before or after the clock
@@ -215,6 +228,7 @@ func runC05(c *mon.Ctx) {
 		cs.Desc("now=%s na=%d focus=%s[%d] delta=%v kind=%s sc=%v nb=%v nooa=%v place=%s skip=%v", now.Format(time.RFC3339Nano), na, focus, focusIdx, fdelta, badKind, boundTexts(sc), strOrAbsent(nb.text), strOrAbsent(nooa.text), place, skip)
 		cs.Input([]byte(xml))
 		sp, clk, _ := pool.SPSource(k, now, signer)
+		sp.AllowMissingAttributes = withoutAttrs
 		sp.SkipSignatureValidation = skip
 		enc := sim.Encode(xml, sim.RawLevel)
 
